@@ -9,10 +9,12 @@ import (
 	"sort"
 	"strconv"
 	"strings"
+	"time"
 	"unicode"
 
 	"git.sr.ht/~rockorager/vaxis"
 	"git.sr.ht/~rockorager/vaxis/ansi"
+	"verifharness/fakeconsole"
 	"verifharness/gen"
 	"verifharness/hx"
 )
@@ -85,6 +87,10 @@ func intsTok(v []int) string {
 type H struct {
 	r   *hx.Run
 	rng *gen.Rng
+	// a real Vaxis on a fake console, for the end-to-end stream
+	fc  *fakeconsole.Console
+	vx  *vaxis.Vaxis
+	e2n int
 	// sample of decoded keys for the matching streams
 	keys []vaxis.Key
 }
@@ -105,6 +111,60 @@ func (h *H) emitDec(in string, spec string, class string, keep bool) {
 		return
 	}
 	h.emitDecSeq(seqs[0], spec, class, keep)
+	h.e2n++
+	if h.vx != nil && (h.r.Thorough && h.e2n%4 == 0 || !h.r.Thorough && h.e2n%3 == 0) {
+		h.emitE2E(in, seqs[0], spec, class)
+	}
+}
+
+const sentinel = "\x1b[57500;1:1u" // a private-use key code outside every generated number range
+
+// e2eKey injects the bytes followed by the sentinel key into the fake console of a real Vaxis and
+// returns the Key events read from Events() before the sentinel ("none" if there are none, "hang" if
+// the sentinel does not arrive).
+func (h *H) e2eKey(in string) string {
+	h.fc.InjectString(in + sentinel)
+	var keys []string
+	deadline := time.After(2 * time.Second)
+	for {
+		select {
+		case ev := <-h.vx.Events():
+			if k, ok := ev.(vaxis.Key); ok {
+				if k.Keycode == 57500 {
+					switch len(keys) {
+					case 0:
+						return "none"
+					case 1:
+						return keys[0]
+					}
+					return "several:" + strings.Join(keys, ",")
+				}
+				keys = append(keys, keyTok(k))
+			}
+		case <-deadline:
+			return "hang"
+		}
+	}
+}
+
+func (h *H) emitE2E(in string, seq ansi.Sequence, spec string, class string) {
+	st, ok := seqTok(seq)
+	if !ok {
+		return
+	}
+	res := h.e2eKey(in)
+	u := uniSet{}
+	u.addSeq(seq)
+	if k, ok := untokKey(res); ok {
+		u.addKey(k)
+	}
+	k, _ := decode(seq)
+	u.addKey(k)
+	h.r.Emit(fmt.Sprintf("e2e %s %s %s", u.tok(), st, spec), res)
+	h.r.Count("e2e:" + class)
+	if res == "none" {
+		h.r.Count("e2e-not-a-key-event:" + class)
+	}
 }
 
 func (h *H) emitDecSeq(seq ansi.Sequence, spec string, class string, keep bool) {
@@ -699,6 +759,17 @@ func run(r *hx.Run) error {
 			r.Emit(op, res)
 			r.Count("corpus")
 		}
+	}
+	// end to end: a real Vaxis reading from a fake console (Events() is the observation point)
+	fc := fakeconsole.New(80, 24, fakeconsole.FromMask(0))
+	if vx, err := vaxis.New(vaxis.Options{WithConsole: fc, NoSignals: true}); err == nil {
+		h.fc, h.vx = fc, vx
+		defer vx.Close()
+		if r := h.e2eKey(""); r != "none" {
+			return fmt.Errorf("end-to-end stream: unexpected start-up result %s", r)
+		}
+	} else {
+		return fmt.Errorf("vaxis.New on the fake console: %v", err)
 	}
 	h.decodeStreams()
 	h.crossStreams()
